@@ -72,6 +72,16 @@ class DeviceModel(object):
 
     def send_rsp_recv_cmd(self, target, data, timeout):
         self._enter('send_rsp_recv_cmd')
+        # as the Device interface documents it: the next command, None when the link broke, or a communication error
+        k = nondet_int(0, 4)
+        if k == 1:
+            return None
+        if k == 2:
+            raise nfc.clf.TimeoutError("timeout")
+        if k == 3:
+            raise nfc.clf.TransmissionError("transmission")
+        if k == 4:
+            raise nfc.clf.BrokenLinkError("rf off")
         return nondet_bytearray(0, None)
 
     def get_max_send_data_size(self, target):
@@ -113,6 +123,8 @@ class TagEmuModel(nfc.tag.TagEmulation):
         self.cmd = b'\x00'
 
     def process_command(self, command):
+        # interface obligation: what is processed is a command that was received (the real emulations take its len())
+        require(command is not None, 'process_command() is given a received command, not None')
         return None if nondet_bool() else nondet_bytearray(0, 64)
 
     def send_response(self, response, timeout):
